@@ -36,7 +36,7 @@ class Cell:
                  extra_checks=(), backends=(("sat", 120),), object_bits=None,
                  kind="proof", bound=None, note="", flavour="debug",
                  expect_fail=(), closes_loops="", replay=None, group=None,
-                 no_checks=(), nondet_static=False, malloc_may_fail=False, optional=False, fallback=None, trace_extra=()):
+                 no_checks=(), nondet_static=False, malloc_may_fail=False, optional=False, fallback=None, trace_extra=(), split=0):
         self.id = id
         self.unit = unit
         self.entry = entry
@@ -62,6 +62,7 @@ class Cell:
         self.optional = optional
         self.fallback = fallback
         self.trace_extra = tuple(trace_extra)
+        self.split = split   # >0: decide the obligations in that many parallel cbmc processes (--property groups)
 
 
 def _limits():
@@ -103,6 +104,56 @@ def parse_cbmc_json(path):
         if "cProverStatus" in el:
             status = el["cProverStatus"]
     return results, msgs, status
+
+
+def run_split(cmd, tmo, workdir, be, ngroups):
+    """Lists the obligations (--show-properties) and decides them in parallel cbmc processes, each restricted
+    to a group by --property.  Returns (rc, results, msgs, seconds); rc None = some group timed out."""
+    import concurrent.futures as cf
+    t0 = time.time()
+    lp = os.path.join(workdir, "props.%s.json" % be)
+    rc, out, err, dt = run([c for c in cmd if c != "--trace"] + ["--show-properties"], 300, stdout_path=lp)
+    try:
+        data = json.load(open(lp))
+    except Exception as e:
+        return 1, None, ["cannot list properties: %s" % e], time.time() - t0
+    names = []
+    for el in data:
+        if "properties" in el:
+            names = [p["name"] for p in el["properties"]]
+    if not names:
+        return 1, None, ["no properties listed"], time.time() - t0
+    # hard obligations (post-conditions, loop invariants) get their own group; the rest is chunked
+    hard = [n for n in names if re.search(r"postcondition|loop_invariant|loop_decreases|assertion", n)]
+    easy = [n for n in names if n not in hard]
+    groups = [[h] for h in hard]
+    k = max(1, ngroups)
+    chunk = max(1, (len(easy) + k - 1) // k)
+    groups += [easy[i:i + chunk] for i in range(0, len(easy), chunk)]
+
+    def one(idx_g):
+        idx, g = idx_g
+        outp = os.path.join(workdir, "cbmc.%s.g%d.json" % (be, idx))
+        c = list(cmd)
+        for n in g:
+            c += ["--property", n]
+        rc, out, err, dt = run(c, tmo, stdout_path=outp)
+        if rc is None:
+            return None, g, ["timeout on " + ",".join(g[:3])]
+        results, msgs, status = parse_cbmc_json(outp)
+        return results, g, msgs
+
+    allres, allmsgs, timed_out = [], [], []
+    with cf.ThreadPoolExecutor(max_workers=ngroups) as ex:
+        for results, g, msgs in ex.map(one, list(enumerate(groups))):
+            if results is None:
+                timed_out += msgs
+            else:
+                allres += [r for r in results if r["property"] in g]
+                allmsgs += [m for m in msgs if re.search(r"ignoring|Parse Error|returned error", m)]
+    if timed_out:
+        return None, None, timed_out, time.time() - t0
+    return 0, allres, allmsgs, time.time() - t0
 
 
 def run_cell(cell, unit_c_path, workdir, log):
@@ -176,15 +227,25 @@ def run_cell(cell, unit_c_path, workdir, log):
     for be, tmo in cell.backends:
         cmd = base + BACKENDS[be]
         outp = os.path.join(workdir, "cbmc.%s.json" % be)
-        rc, out, err, dt = run(cmd, tmo, stdout_path=outp)
-        att = {"backend": be, "timeout_s": tmo, "seconds": round(dt, 2), "rc": rc}
-        res["cmds"].append(" ".join(cmd))
-        if rc is None:
-            att["outcome"] = "timeout"
-            res["attempts"].append(att)
-            continue
-        results, msgs, status = parse_cbmc_json(outp)
-        joined = "\n".join(msgs)
+        if cell.split:
+            rc, results, msgs, dt = run_split(cmd, tmo, workdir, be, cell.split)
+            att = {"backend": be, "timeout_s": tmo, "seconds": round(dt, 2), "rc": rc, "split": cell.split}
+            res["cmds"].append(" ".join(cmd) + "   [obligations decided in %d parallel --property groups]" % cell.split)
+            if rc is None:
+                att["outcome"] = "timeout (in at least one property group: %s)" % "; ".join(msgs)[:300]
+                res["attempts"].append(att)
+                continue
+            joined = "\n".join(msgs)
+        else:
+            rc, out, err, dt = run(cmd, tmo, stdout_path=outp)
+            att = {"backend": be, "timeout_s": tmo, "seconds": round(dt, 2), "rc": rc}
+            res["cmds"].append(" ".join(cmd))
+            if rc is None:
+                att["outcome"] = "timeout"
+                res["attempts"].append(att)
+                continue
+            results, msgs, status = parse_cbmc_json(outp)
+            joined = "\n".join(msgs)
         if results is None:
             att["outcome"] = "error: " + " | ".join((joined or err).strip().splitlines()[-2:])[-400:]
             res["attempts"].append(att)
